@@ -90,6 +90,10 @@ pub trait World {
     fn pending(&self) -> usize {
         0
     }
+    /// Addresses of the primitive's atomic words (index = the `w<i>` of the atomic-operation log).
+    fn word_addrs(&self) -> Vec<usize> {
+        Vec::new()
+    }
     /// Further contention (guards alive, ...) for the beam search's ranking.
     fn score(&self) -> usize {
         0
@@ -104,9 +108,37 @@ pub struct Runner {
 
 pub type Maker = fn(&str) -> Option<Box<dyn World>>;
 
+/// The atomic operations the crate performed since the last call (hook: `record_atomics`), in the
+/// model's print format: `w<i>:<op>(<operands>;<orderings>)=<result>`, comma separated; `-` if none.
+pub fn take_atoms(addrs: &[usize]) -> String {
+    let log = async_lock::__verif::take_atomic_log();
+    if log.is_empty() {
+        return "-".to_string();
+    }
+    log.iter()
+        .map(|a| {
+            let w = addrs.iter().position(|x| *x == a.addr).map(|i| format!("w{}", i)).unwrap_or("w?".into());
+            let args = match a.op {
+                "load" => String::new(),
+                "cas" | "casw" => format!("{},{}", a.args[0] as isize, a.args[1] as isize),
+                _ => format!("{}", a.args[0] as isize),
+            };
+            let ret = match (a.op, a.ret) {
+                ("cas", Some(r)) | ("casw", Some(r)) => format!("={}{}", if a.ok { "ok" } else { "err" }, r),
+                (_, Some(r)) => format!("={}", r),
+                (_, None) => String::new(),
+            };
+            format!("{}:{}({};{}){}", w, a.op, args, a.ord, ret)
+        })
+        .collect::<Vec<_>>()
+        .join(",")
+}
+
 impl Runner {
     pub fn new(new_line: &str, mk: Maker) -> Option<Runner> {
         take_wakes();
+        async_lock::__verif::record_atomics(true);
+        let _ = async_lock::__verif::take_atomic_log();
         Some(Runner {
             world: mk(new_line)?,
             woken: BTreeSet::new(),
@@ -116,6 +148,8 @@ impl Runner {
     /// Executes `op`, returns the full observation line (and monitor hits).
     pub fn exec(&mut self, op: &str) -> (String, Vec<String>) {
         let toks: Vec<&str> = op.split_whitespace().collect();
+        // before the operation: it may free the primitive
+        let addrs = self.world.word_addrs();
         let out;
         if toks.first() == Some(&"settle") {
             // run woken futures to quiescence, smallest id first, bounded
@@ -142,8 +176,10 @@ impl Runner {
                 }
             }
             out = format!("settled {}", polls);
-            let obs = format!("{} | w={} | {}", out, fmt_list(&all_wakes), self.world.snapshot());
+            let atoms = take_atoms(&addrs);
+            let obs = format!("{} | w={} | {} at={}", out, fmt_list(&all_wakes), self.world.snapshot(), atoms);
             let mut mons = self.world.monitors(&self.woken);
+            let _ = async_lock::__verif::take_atomic_log();
             // C17: nothing is released, started or cancelled during a settle, so the woken futures
             // must come to rest within a small multiple of the number of pending futures
             if polls > 5 * pending0 || (polls >= bound && !self.woken.is_empty() && bound > 5 * pending0) {
@@ -163,8 +199,11 @@ impl Runner {
             self.woken.insert(*t / 4);
         }
         // a future that completed or was dropped can no longer be "woken and not re-polled"
-        let obs = format!("{} | w={} | {}", out, fmt_list(&wakes), self.world.snapshot());
+        let atoms = take_atoms(&addrs);
+        let obs = format!("{} | w={} | {} at={}", out, fmt_list(&wakes), self.world.snapshot(), atoms);
         let mons = self.world.monitors(&self.woken);
+        // the monitors' own probes (try_lock, try_read, ...) are not part of the next operation
+        let _ = async_lock::__verif::take_atomic_log();
         (obs, mons)
     }
 
